@@ -12,6 +12,9 @@ import (
 	"github.com/polydawn/refmt"
 	"github.com/polydawn/refmt/cbor"
 	"github.com/polydawn/refmt/json"
+	"github.com/polydawn/refmt/obj"
+	"github.com/polydawn/refmt/pretty"
+	"github.com/polydawn/refmt/shared"
 )
 
 type raceJob struct {
@@ -38,11 +41,64 @@ func runJob(j raceJob, a *atlasCfg) string {
 		dst := reflect.New(j.t)
 		e, pn := safely(func() error { return refmt.UnmarshalAtlased(do, j.data, dst.Interface(), a.atl) })
 		return resStr(dumpValue(dst.Elem()), e, pn)
+	case "P", "J":
+		// the rarely used sinks: the pretty printer, and the JSON encoder with line / indent options, fed by an
+		// object-layer marshaller of the worker's own through a pump of its own
+		var buf bytes.Buffer
+		e, pn := safely(func() error {
+			m := obj.NewMarshaller(a.atl)
+			if err := m.Bind(j.src.Interface()); err != nil {
+				return err
+			}
+			var sink shared.TokenSink = pretty.NewEncoder(&buf)
+			if j.kind == "J" {
+				sink = json.NewEncoder(&buf, json.EncodeOptions{Line: []byte("\n"), Indent: []byte("    ")})
+			}
+			return shared.TokenPump{TokenSource: m, TokenSink: sink}.Run()
+		})
+		return resStr(hexOrDash(buf.Bytes()), e, pn)
+	case "R":
+		// long-lived instances of the worker's own, used for the same value twice
+		var buf bytes.Buffer
+		var out string
+		e, pn := safely(func() error {
+			m := refmt.NewMarshallerAtlased(eo, &buf, a.atl)
+			if err := m.Marshal(j.src.Interface()); err != nil {
+				return err
+			}
+			if err := m.Marshal(j.src.Interface()); err != nil {
+				return err
+			}
+			u := refmt.NewUnmarshallerAtlased(do, &buf, a.atl)
+			for k := 0; k < 2; k++ {
+				dst := reflect.New(j.t)
+				if err := u.Unmarshal(dst.Interface()); err != nil {
+					return err
+				}
+				out += dumpValue(dst.Elem()) + ";"
+			}
+			return nil
+		})
+		return resStr(out, e, pn)
 	default:
 		dst := reflect.New(j.t)
 		e, pn := safely(func() error { return refmt.CloneAtlased(j.src.Interface(), dst.Interface(), a.atl) })
 		return resStr(dumpValue(dst.Elem()), e, pn)
 	}
+}
+
+// a chain of records nested d deep (the deepest levels the printers' indentation has to reach)
+func deepRec(d int) Rec {
+	r := Rec{V: d}
+	if d > 0 {
+		if d%2 == 0 {
+			k := deepRec(d - 1)
+			r.Next = &k
+		} else {
+			r.Kids = []Rec{{V: -d}, deepRec(d - 1)}
+		}
+	}
+	return r
 }
 
 // race <seed> <workers> <jobs> <procs>: N goroutines, each with its own machinery, one shared atlas set and shared
@@ -63,6 +119,7 @@ func opRace(p []string) string {
 	}
 	zas := zooAtlases()
 	var jobs []raceJob
+	deepest := 6
 	for i := 0; i < njobs; i++ {
 		f := []string{"cbor", "json"}[r.intn(2)]
 		a := zas[1+r.intn(len(zas)-1)]
@@ -79,7 +136,29 @@ func opRace(p []string) string {
 		}
 		src := reflect.New(t)
 		src.Elem().Set(rv)
-		j := raceJob{kind: []string{"M", "U", "C"}[r.intn(3)], f: f, aid: a.id, t: t, src: src}
+		j := raceJob{kind: []string{"M", "U", "C", "M", "U", "C", "P", "J", "R"}[r.intn(9)], f: f, aid: a.id, t: t, src: src}
+		if (j.kind == "P" || j.kind == "J") && i%4 == 0 {
+			// every so often a value nested deeper than any other in this run
+			deepest += 1 + r.intn(4)
+			dr := deepRec(deepest)
+			j.t = reflect.TypeOf(dr)
+			j.src = reflect.New(j.t)
+			j.src.Elem().Set(reflect.ValueOf(dr))
+		}
+		if j.kind == "U" && a.id == 3 && t == reflect.TypeOf(Emb{}) {
+			// the key atlas 3 declares as ignored, present in the input (between the mapped ones)
+			e := src.Elem().Interface().(Emb)
+			doc := map[string]interface{}{"zed": e.Z, "why": e.Y, "ex": e.X, "legacy": []interface{}{e.Y, map[string]interface{}{"k": e.Z}}}
+			var eo refmt.EncodeOptions = cbor.EncodeOptions{}
+			if f == "json" {
+				eo = json.EncodeOptions{}
+			}
+			if b, e := refmt.Marshal(eo, doc); e == nil {
+				j.data = b
+				jobs = append(jobs, j)
+				continue
+			}
+		}
 		if j.kind == "U" {
 			var eo refmt.EncodeOptions = cbor.EncodeOptions{}
 			if f == "json" {
@@ -110,11 +189,10 @@ func opRace(p []string) string {
 		}
 		jobs = append(jobs, j)
 	}
-	// sequential reference
+	// The concurrent passes come FIRST and the sequential reference after them: whatever package-level state the
+	// library builds or grows on first use (tables, caches, pools) is then first touched by several goroutines at once.
 	want := make([]string, len(jobs))
-	for i, j := range jobs {
-		want[i] = runJob(j, atlasByID(strconv.Itoa(j.aid)))
-	}
+	mismatch := ""
 	// concurrent: every worker runs every job (sharing atlases and inputs), in a worker-specific order; the atlases
 	// are freshly built for this phase, so that the workers are the first ever to use them (lazily initialised or
 	// first-use-mutated shared state would be touched concurrently)
@@ -151,13 +229,21 @@ func opRace(p []string) string {
 		}
 		close(start)
 		wg.Wait()
+		if pass == 0 {
+			for i, j := range jobs {
+				want[i] = runJob(j, atlasByID(strconv.Itoa(j.aid)))
+			}
+		}
 		for w := range got {
 			for i := range jobs {
-				if got[w][i] != want[i] {
-					return fmt.Sprintf("I=differs O=viol:worker-%d-job-%d-%s-differs-from-sequential", w, i, jobs[i].kind)
+				if got[w][i] != want[i] && mismatch == "" {
+					mismatch = fmt.Sprintf("I=differs O=viol:worker-%d-job-%d-%s-differs-from-sequential", w, i, jobs[i].kind)
 				}
 			}
 		}
+	}
+	if mismatch != "" {
+		return mismatch
 	}
 	return "I=ok O=ok"
 }
